@@ -53,8 +53,11 @@ def gen_reference(rng, idx):
     inp = Input((8, 8, 2), name=f"in{idx}")
     x = inp
     for _ in range(int(rng.integers(1, 3))):
-      t = int(rng.integers(0, 4))
-      if t <= 1:
+      t = int(rng.integers(0, 5))
+      if t == 4:
+        # separable convolutions: the conversion itself is a C12 known finding, but the dictionary handed to model_quantize is observable
+        x = L.SeparableConv2D(int(rng.integers(1, 4)), 3, padding="same", activation=pick(rng, acts), use_bias=bool(rng.integers(0, 3)), name=next(names))(x)
+      elif t <= 1:
         x = L.Conv2D(int(rng.integers(1, 4)), 3, padding="same", activation=pick(rng, acts), use_bias=bool(rng.integers(0, 3)), name=next(names))(x)
       elif t == 2:
         x = L.DepthwiseConv2D(3, padding="same", activation=pick(rng, acts), use_bias=bool(rng.integers(0, 3)), name=next(names))(x)
@@ -103,7 +106,7 @@ def gen_limit(rng, model, cfg):
     entries.append((p, [slotv("kernel"), slotv("bias"), slotv("activation")][:int(rng.integers(1, 4))] if not p.startswith("^act") else [slotv("activation")]))
   cls = []
   for c in classes:
-    if c in ("Dense", "Conv2D", "Conv1D", "DepthwiseConv2D") and rng.integers(0, 4) > 0:
+    if c in ("Dense", "Conv2D", "Conv1D", "DepthwiseConv2D", "SeparableConv2D") and rng.integers(0, 4) > 0:
       cls.append((c, [slotv("kernel"), slotv("bias"), slotv("activation")][:int(rng.integers(1, 4))]))
     elif c == "Activation" and rng.integers(0, 3) > 0:
       cls.append((c, [slotv("activation")]))
@@ -302,9 +305,7 @@ def main():
             if not okq:
               what = (f"layer {nme} ({cls}, resolves to limit entry {key!r}) role {role}: quantizer {qn!r} is not allowed by slot {slot_i} = {lv} "
                       f"of {adj[key]} for configuration field {field!r}; assignment {tab}")
-              if any(w in nme for w in ("kernel", "bias")):
-                rep.finding("C20-role-read-from-layer-name", what + " (the role is decided by substring tests on layer.name + '_role')", {"limit": str(adj)})
-              elif pat is not None and (is_lin or role in ("activation",) and cls != "Activation"):
+              if pat is not None and (is_lin or role in ("activation",) and cls != "Activation"):
                 rep.finding("C20-group-slot-shared-across-roles", what + " (the pattern group stores one choice per slot index; roles sharing an index reuse it)", {"limit": str(adj)})
               else:
                 rep.violation(f"over-limit-{i}-{nme}-{role}", what, {"limit": str(adj), "assignment": tab})
@@ -327,6 +328,39 @@ def main():
             size_cases.append((ref, qm, i, tab))
     finally:
       A.model_quantize = orig_mq
+  # ---- directed: two separable layers under different limit entries (each must get ITS OWN pointwise choice)
+  try:
+    import tensorflow.keras.layers as L
+    from tensorflow.keras import Model, Input
+    i_ = Input((8, 8, 2), name="sep_in")
+    x_ = L.SeparableConv2D(2, 3, padding="same", name="sep_small")(i_)
+    x_ = L.SeparableConv2D(2, 3, padding="same", name="sep_big")(x_)
+    sref = Model(i_, x_)
+    tgt = forgiving_factor["bits"](8.0, 8.0, 2.0, stress=1.0, config={"default": ["parameters", "activations"]})
+    slim = {"^sep_small": [2, 8, 8], "^sep_big": [8, 8, 8]}
+    shm = A.AutoQKHyperModel(sref, metrics=["acc"], target=tgt, limit=dict(slim), tune_filters="none", tune_filters_exceptions="^$", quantization_config=CUSTOM_CFG)
+    cap2 = {}
+    orig_mq = A.model_quantize
+
+    def mq2(model, qd, ab, **kw):
+      cap2["q"] = {k: dict(v) if isinstance(v, dict) else v for k, v in qd.items()}
+      raise RuntimeError("captured")
+    A.model_quantize = mq2
+    try:
+      shm.quantize_model(HP({"^sep_big_kernel_quantizer": 3, "^sep_small_kernel_quantizer": 0}))
+    except RuntimeError:
+      pass
+    finally:
+      A.model_quantize = orig_mq
+    rep.count(("directed-separable", str(cap2.get("q"))))
+    qs_ = cap2.get("q", {})
+    pw = qs_.get("sep_small", {}).get("pointwise_quantizer")
+    if pw is not None and CUSTOM_CFG["kernel"].get(pw, 99) > 2:
+      rep.violation("pointwise-of-first-separable-over-limit", f"limit {slim}: sep_small received pointwise_quantizer {pw!r} "
+                    f"({CUSTOM_CFG['kernel'].get(pw)} bits, limit 2): the pointwise choice made for sep_big was applied to every separable layer; q_dict {qs_}",
+                    {"limit": str(slim)})
+  except Exception as e:  # pylint: disable=broad-except
+    rep.violation("directed-separable-raises", f"directed separable case raised {type(e).__name__}: {str(e)[:200]}", {})
   # ---- forgiving factor on the implementation
   ff = forgiving_factor["bits"]
   n_delta = 0
